@@ -4,9 +4,20 @@
 package main
 
 import (
+	"crypto/sha256"
 	"fmt"
+	"io"
 	"time"
+
+	"github.com/bronlabs/bron-crypto/pkg/mpc"
+	"github.com/bronlabs/bron-crypto/pkg/signatures/bls"
+	"github.com/bronlabs/bron-crypto/pkg/signatures/ecdsa"
+	"github.com/bronlabs/bron-crypto/pkg/signatures/schnorrlike/bip340"
+	vanilla "github.com/bronlabs/bron-crypto/pkg/signatures/schnorrlike/schnorr"
+	"github.com/bronlabs/bron-crypto/pkg/proofs/sigma/compiler/fischlin"
 )
+
+type mpcBaseShardK256 = mpc.BaseShard[*k256Point, *k256Scalar]
 
 func init() { register("PROTO", runProtoSelfTest) }
 
@@ -99,5 +110,115 @@ func init() {
 		}
 		r := runGennaro(cK256, ac, dealerContexts(ids, NewRng(c.Seed, 8)), partyRngs(c.Seed, 200, ids), h, defaultCompiler)
 		return fmt.Sprintf("%s hits=%d %s", r.Net.StatusStr(), h.Hits, r.Net.statusSummary())
+	})
+}
+
+func init() {
+	k256Shards := func(c *Ctx, spec string) (map[ID]*mpcBaseShardK256, []ID) {
+		r := runTrustedDealer(cK256, mustAccess(spec), NewRng(c.Seed, 7))
+		return r.Shards, accessIDs(mustAccess(spec))
+	}
+	for _, variant := range []string{"bbot", "softspoken"} {
+		addProtoSelfTest("dkls23-"+variant+"/k256 2of3", func(c *Ctx) string {
+			shards, _ := k256Shards(c, "th:2:1,2,3")
+			suite, _ := ecdsa.NewSuite(cK256, sha256.New)
+			q := []ID{1, 3}
+			r := runDKLs23(variant, suite, shards, q, dealerContexts(q, NewRng(c.Seed, 9)), []byte("hello"), partyRngs(c.Seed, 300, q), nil)
+			return fmt.Sprintf("%s agg=%s sig=%v same=%v msgs=%d", r.Net.StatusStr(), r.AggStatus, r.Sig != nil, r.Sig != nil && r.Sig.Equal(r.SigAlt), len(r.Net.Log))
+		})
+	}
+	addProtoSelfTest("dkls23-bbot/k256 3of3", func(c *Ctx) string {
+		shards, _ := k256Shards(c, "th:2:1,2,3")
+		suite, _ := ecdsa.NewSuite(cK256, sha256.New)
+		q := []ID{1, 2, 3}
+		r := runDKLs23("bbot", suite, shards, q, dealerContexts(q, NewRng(c.Seed, 9)), []byte("hello"), partyRngs(c.Seed, 300, q), nil)
+		return fmt.Sprintf("%s agg=%s", r.Net.StatusStr(), r.AggStatus)
+	})
+	addProtoSelfTest("dkls23-softspoken-runner/k256", func(c *Ctx) string {
+		shards, _ := k256Shards(c, "th:2:1,2,3")
+		suite, _ := ecdsa.NewSuite(cK256, sha256.New)
+		q := []ID{2, 3}
+		r := runDKLs23Runner("softspoken", suite, shards, q, dealerContexts(q, NewRng(c.Seed, 9)), []byte("hello"), partyRngs(c.Seed, 300, q))
+		return fmt.Sprintf("%s agg=%s", r.Net.StatusStr(), r.AggStatus)
+	})
+	addProtoSelfTest("lindell22-bip340/k256 2of3", func(c *Ctx) string {
+		shards, _ := k256Shards(c, "th:2:1,2,3")
+		q := []ID{1, 3}
+		mk := func(rng io.Reader) (*bip340.Scheme, error) { return bip340.NewScheme(rng) }
+		r := runLindell22(mk, shards, q, dealerContexts(q, NewRng(c.Seed, 9)), []byte("hello"), partyRngs(c.Seed, 300, q), NewRng(c.Seed, 10), nil, defaultCompiler)
+		return fmt.Sprintf("%s agg=%s verify=%v same=%v", r.Net.StatusStr(), r.AggStatus, r.VerifyOK, r.Sig != nil && r.Sig.Equal(r.SigAlt))
+	})
+	addProtoSelfTest("lindell22-vanilla-runner/k256", func(c *Ctx) string {
+		shards, _ := k256Shards(c, "cnf:1,2|3,4|1,3")
+		q := []ID{1, 4}
+		mk := func(rng io.Reader) (*vanilla.Scheme[*k256Point, *k256Scalar], error) {
+			return vanilla.NewScheme(cK256, sha256.New, false, false, nil, rng)
+		}
+		r := runLindell22Runner(mk, shards, q, dealerContexts(q, NewRng(c.Seed, 9)), []byte("hello"), partyRngs(c.Seed, 300, q), NewRng(c.Seed, 10), defaultCompiler)
+		return fmt.Sprintf("%s agg=%s verify=%v", r.Net.StatusStr(), r.AggStatus, r.VerifyOK)
+	})
+	addProtoSelfTest("boldyreva-short 2of3", func(c *Ctx) string {
+		d := runTrustedDealer(cBLSG1, mustAccess("th:2:1,2,3"), NewRng(c.Seed, 7))
+		q := []ID{1, 3}
+		r := runBoldyrevaShort(d.Shards, q, dealerContexts(q, NewRng(c.Seed, 9)), []byte("hello"), bls.Basic, nil)
+		return fmt.Sprintf("%s agg=%s sig=%v", r.Net.StatusStr(), r.AggStatus, r.Sig != nil)
+	})
+	addProtoSelfTest("boldyreva-long 2of3 POP", func(c *Ctx) string {
+		d := runTrustedDealer(cBLSG2, mustAccess("th:2:1,2,3"), NewRng(c.Seed, 7))
+		q := []ID{1, 3}
+		r := runBoldyrevaLong(d.Shards, q, dealerContexts(q, NewRng(c.Seed, 9)), []byte("hello"), bls.POP, nil)
+		return fmt.Sprintf("%s agg=%s sig=%v", r.Net.StatusStr(), r.AggStatus, r.Sig != nil)
+	})
+	addProtoSelfTest("cnf large ids (C02 candidate)", func(c *Ctx) string {
+		ac := mustAccess("cnf:1,200|3,4000000000000|1,3")
+		r := runTrustedDealer(cK256, ac, NewRng(c.Seed, 7))
+		return r.Net.StatusStr()
+	})
+}
+
+func init() {
+	addProtoSelfTest("hjky/k256 th2of3", func(c *Ctx) string {
+		ac := mustAccess("th:2:1,2,3")
+		ids := accessIDs(ac)
+		r := runHJKY(cK256, ac, dealerContexts(ids, NewRng(c.Seed, 8)), partyRngs(c.Seed, 200, ids), nil)
+		z := ""
+		for _, id := range ids {
+			if v := r.VV[id]; len(v) > 0 {
+				z += pointStr(v[0]) + " "
+			}
+		}
+		return fmt.Sprintf("%s shares=%d V0=%s", r.Net.StatusStr(), len(r.Shares), z)
+	})
+	addProtoSelfTest("redistribute/k256 th2of3->th2of4", func(c *Ctx) string {
+		d := runTrustedDealer(cK256, mustAccess("th:2:1,2,3"), NewRng(c.Seed, 7))
+		next := mustAccess("th:2:2,3,4,9")
+		all := []ID{1, 2, 3, 4, 9}
+		r := runRedistribute([]ID{1, 2, 3}, d.Shards, next, dealerContexts(all, NewRng(c.Seed, 8)), partyRngs(c.Seed, 200, all), nil)
+		same := len(r.Shards) > 0
+		for _, sh := range r.Shards {
+			same = same && sh.PublicKeyValue().Equal(d.Shards[1].PublicKeyValue())
+		}
+		return fmt.Sprintf("%s shards=%d samePK=%v", r.Net.StatusStr(), len(r.Shards), same)
+	})
+	addProtoSelfTest("redistribute-runner/k256 refresh", func(c *Ctx) string {
+		d := runTrustedDealer(cK256, mustAccess("th:2:1,2,3"), NewRng(c.Seed, 7))
+		all := []ID{1, 2, 3}
+		r := runRedistributeRunner(all, d.Shards, mustAccess("th:2:1,2,3"), dealerContexts(all, NewRng(c.Seed, 8)), partyRngs(c.Seed, 200, all))
+		return fmt.Sprintf("%s shards=%d", r.Net.StatusStr(), len(r.Shards))
+	})
+	addProtoSelfTest("lindell17 deal(3072)+sign/k256", func(c *Ctx) string {
+		if !c.Thorough() {
+			return "skipped in quick tier (3 Paillier keys of 3072 bits)"
+		}
+		t0 := time.Now()
+		shards, cls := runLindell17Deal(cK256, mustAccess("th:2:1,2,3"), 3072, NewRng(c.Seed, 7))
+		dealT := time.Since(t0)
+		if cls != "ok" {
+			return "deal " + cls
+		}
+		suite, _ := ecdsa.NewSuite(cK256, sha256.New)
+		q := []ID{1, 3}
+		r := runLindell17Sign(suite, shards, 1, 3, dealerContexts(q, NewRng(c.Seed, 9)), []byte("hello"), partyRngs(c.Seed, 300, q), nil, fischlin.Name)
+		return fmt.Sprintf("deal=%v %s sig=%v %s", dealT.Round(time.Millisecond), r.Net.StatusStr(), r.Sig != nil, r.Net.statusSummary())
 	})
 }
